@@ -2,7 +2,7 @@
    rational mass / stiffness literals checked by vm_compute) and of the regenerated default order. *)
 From Coq Require Import List Arith ZArith QArith Qabs Bool Lia.
 Require Import Base.Corr Base.C09_Poly Model.C08_Rules Model.C02_PolyInt Proofs.C02_PolyIntProofs.
-Require Import Gen.C02Gen Gen.C02Elems Dyn.C02Tie.
+Require Import Base.C02_Ops Model.C02_Integration Proofs.C02_IntegrationProofs Gen.C02Gen Gen.C02Elems Dyn.C02Tie.
 Import ListNotations.
 
 Lemma ref_mass_exact :
@@ -33,3 +33,28 @@ Proof.
   intros HF Hf Ha Hb. pose proof (pullback_degree F f HF). pose proof (default_order_covers_products a b m Ha Hb).
   pose proof (pdeg_pmul (psubst F f) (pmul a b)). lia.
 Qed.
+
+(* ---------- deepening round 3: load vectors, stiffness on general affine cells *)
+Lemma assembled_ref_load_close : forall s n vals ms lits, In (s, n, vals, ms, lits) load_elements ->
+  loads_eqb (map (load_ref s vals) ms) lits = true /\
+  forall R tol, rule_okQ s R n tol -> forall m a, In m ms -> In a vals ->
+    Qabs (qrule_int R (dim s) (pmul [(1, m)] a) - pint s (pmul [(1, m)] a)) <= l1 (pmul [(1, m)] a) * tol.
+Proof.
+  intros s n vals ms lits He. pose proof (proj1 (Forall_forall _ _) load_elements_ok _ He) as H.
+  unfold load_elem_ok in H. apply andb_true_iff in H. destruct H as [H1 H2]. split; [exact H1|].
+  intros R tol HR. exact (load_close s R n tol vals ms HR H2).
+Qed.
+
+Section AffineStiffness.
+  Variable R : Type.
+  Variable O : ops R.
+  Hypothesis Rth : ring_theory (o0 O) (o1 O) (oadd O) (omul O) (osub O) (oopp O) (@eq R).
+  (* one affine cell e, dx as written in CellBasis: the quadrature stiffness entry is |detA_e| times the contraction of
+     the reference tensor sums with G = B B^T, B = inverse Jacobian (the generated invA, C02_invA_is_inverse) *)
+  Theorem affine_stiffness_contraction (d : nat) (B gi gj : nat -> nat -> R) absf (detA : nat -> R) (W : nat -> R) (e nq : nat) :
+    (d = 1 \/ d = 2 \/ d = 3)%nat ->
+    rsum O (seq 0 nq) (fun q => omul O (gdot O d B gi gj q) (gen_cell_dx O absf (gen_detDF detA) W e q))
+    = omul O (absf (detA e)) (rsum O (seq 0 d) (fun k => rsum O (seq 0 d) (fun l =>
+        omul O (gramB O d B k l) (rsum O (seq 0 nq) (fun q => omul O (omul O (gi k q) (gj l q)) (W q)))))).
+  Proof. intros Hd. exact (stiffness_contraction R O Rth d B gi gj (absf (detA e)) W nq Hd). Qed.
+End AffineStiffness.
